@@ -125,11 +125,15 @@ func (s *DiskKeyIndex) findAt(off uint64) (*proto.IndexEntry, error) {
 
 	record := &proto.IndexEntry{}
 	_, _, err := s.reader.SeekNext(record, off)
+	if err != nil {
+		// never cache a failed lookup, a later hit would hand out the empty record as if it was read from disk
+		return record, err
+	}
 	if len(s.offsetCache) < s.offsetCacheMaxSize {
 		s.offsetCache[off] = record
 	}
 
-	return record, err
+	return record, nil
 }
 
 func (s *DiskKeyIndex) newIterator(offset, endOffset uint64) *DiskKeyIndexIterator {
